@@ -535,6 +535,18 @@ func opIoOrganism(g *G) (interface{}, []uint64, int, interface{}) {
 	}
 	in.Text = string(data)
 	back := &genetics.Organism{}
+	if g.chance(0.3) {
+		// the receiver is an organism ALREADY IN USE: it holds another genome - often with the same genome id, as the
+		// ids of a generation are renumbered from zero in every epoch - and other fitness / generation values
+		gn2, _ := ioGenome(g, false, true)
+		if g.chance(0.7) {
+			gn2.Id = org.Genotype.Id
+		}
+		if o2, e2 := genetics.NewOrganism(ioFloat(g, true), gn2, g.intn(500)); e2 == nil {
+			back = o2
+			in.Family += "+usedReceiver"
+		}
+	}
 	rerr := back.UnmarshalBinary(data)
 	out.ReadErr = ioErrClass(rerr)
 	if rerr == nil && back.Genotype != nil && !nilEndpoint(back.Genotype) {
